@@ -320,7 +320,7 @@ func writeStripedT[S, D signal.SignalTypes](ins [][]int64, nils []bool, dst *sig
 	if !concurrentRecording {
 		rowLensAfter = nil
 	}
-	src := make([][]S, len(ins))
+	src := make([][]S, len(ins), len(ins)+5) // spare capacity in the outer slice: the count that matters is its length
 	for c := range ins {
 		if !nils[c] {
 			src[c] = conv[S](ins[c])
@@ -356,7 +356,7 @@ func readT[S, D signal.SignalTypes](src *signal.Buffer[S], n int, sentinel int64
 	return c, codes(dst)
 }
 func readStripedT[S, D signal.SignalTypes](src *signal.Buffer[S], lens []int, nils []bool, sentinel int64) (c int, out [][]int64) {
-	dst := make([][]D, len(lens))
+	dst := make([][]D, len(lens), len(lens)+5)
 	for k := range lens {
 		if !nils[k] {
 			dst[k] = make([]D, lens[k])
